@@ -6,14 +6,17 @@ package main
 // the equivalent templates (direct oracle of C19) and with the model of cmd/jl (JL.model.Jl).
 
 import (
+	"bufio"
 	"bytes"
 	"encoding/json"
 	"fmt"
+	"io"
 	"math"
 	"os"
 	"os/exec"
 	"path/filepath"
 	"strings"
+	"time"
 
 	"github.com/cgi-fr/jsonline/pkg/jsonline"
 )
@@ -307,6 +310,25 @@ func jlStream(seed uint64, tier string, outDir string, props map[string]bool, fo
 				violate(fmt.Sprintf("jl: the command's output differs from the library streamer's with the equivalent templates: %q vs %q", rb.stdout, lib.Bytes()), ctx)
 			}
 		}
+		// every line on its own through importer and exporter (no Streamer involved): what jl writes is the concatenation
+		if allWellFormed(cols) {
+			ti, to := libTemplates(cols)
+			var each bytes.Buffer
+			for _, l := range lines {
+				guard(func() {
+					if row, err := ti.GetImporter(strings.NewReader(l + "\n")).ReadOne(); err == nil && row != nil {
+						var one bytes.Buffer
+						if to.GetExporter(&one).Export(row) == nil {
+							each.Write(one.Bytes())
+						}
+					}
+				})
+			}
+			rep.OracleChecks["C19"]++
+			if !bytes.Equal(each.Bytes(), rb.stdout) {
+				violate(fmt.Sprintf("jl: the command writes %q; its input lines taken one by one through importer and exporter give %q (a line's outcome must not end or alter the run)", rb.stdout, each.Bytes()), ctx)
+			}
+		}
 		rep.Outcomes[fmt.Sprintf("lines emitted %d of %d", bytes.Count(rb.stdout, []byte("\n")), len(lines))]++
 		// model case: the inline run (file absent) and the file run
 		tr := &transcript{}
@@ -387,7 +409,56 @@ func jlStream(seed uint64, tier string, outDir string, props map[string]bool, fo
 	}
 	flush()
 	jlDescriptorSweep(bin, mkdir, rep, violate, tier)
+	jlInteractive(bin, mkdir, rep, props)
 	return rep
+}
+
+// jl as a filter with its input kept open: each line written to stdin comes back on stdout, whole, before the next
+// one is sent (one complete write per line: nothing is held back until the end of the run)
+func jlInteractive(bin string, mkdir func(string) string, rep *streamReport, props map[string]bool) {
+	cmd := exec.Command(bin, "-t", `{"a":"numeric","s":"string"}`)
+	cmd.Dir = mkdir("i")
+	cmd.Env = append(os.Environ(), "HOME="+cmd.Dir)
+	stdin, err1 := cmd.StdinPipe()
+	stdout, err2 := cmd.StdoutPipe()
+	if err1 != nil || err2 != nil || cmd.Start() != nil {
+		return
+	}
+	defer func() { stdin.Close(); cmd.Process.Kill(); cmd.Wait() }()
+	lines := make(chan string, 8)
+	go func() {
+		sc := bufio.NewScanner(stdout)
+		sc.Buffer(make([]byte, 1<<20), 1<<24)
+		for sc.Scan() {
+			lines <- sc.Text()
+		}
+		close(lines)
+	}()
+	for k, in := range []string{`{"a":1,"s":"x"}`, `{"s":"` + strings.Repeat("y", 5000) + `","a":2}`, `{"a":3}`} {
+		if _, err := io.WriteString(stdin, in+"\n"); err != nil {
+			return
+		}
+		rep.OracleChecks["C01:jl writes each line as it is read"]++
+		select {
+		case got, ok := <-lines:
+			want := []string{`{"a":1,"s":"x"}`, `{"a":2,"s":"` + strings.Repeat("y", 5000) + `"}`, `{"a":3,"s":null}`}[k]
+			if !ok || got != want {
+				for _, pid := range []string{"C01", "C19"} {
+					if props[pid] {
+						addViolation(rep, pid, fmt.Sprintf("jl (stdin kept open): line %d comes back as %q, expected %q", k, truncStr(got, 120), truncStr(want, 120)), map[string]interface{}{"stream": "jl", "stdin_so_far": truncStr(in, 200)})
+					}
+				}
+				return
+			}
+		case <-time.After(5 * time.Second):
+			for _, pid := range []string{"C01", "C19"} {
+				if props[pid] {
+					addViolation(rep, pid, fmt.Sprintf("jl (stdin kept open): line %d was read but nothing reached stdout within 5 s: output is held back instead of being written line by line", k), map[string]interface{}{"stream": "jl", "stdin_so_far": truncStr(in, 200)})
+				}
+			}
+			return
+		}
+	}
 }
 
 // a directed sweep: every format x every raw-type name of jl's registry as the descriptor of one column, on input and
